@@ -29,6 +29,7 @@ func (p *zzLife) HandleActive(ctx ActiveContext) {
 		ctx.Close(p.closeInActive)
 	}
 	ctx.HandleActive()
+	vrt.Yield() // a handler takes time: "active event still in progress" is an observable state
 	p.activeDone = true
 }
 
@@ -154,5 +155,65 @@ func ZZ_C05_Lifecycle(q, closers, handlerClose, nreads, rkind, swallow int) {
 	vrt.Assert(len(probe.data) <= nreads, "c05-no-phantom-reads")
 	for i := range probe.data {
 		vrt.Assert(probe.data[i] == byte(0x60+i), "c05-reads-in-order")
+	}
+}
+
+// ZZ_C05_WriteFaultClose: a write-side transport failure in the background sender racing with user Close calls
+// (every interleaving, including a Close that takes effect while the sender is inside the failing transport call):
+// the transport is closed exactly once, inactive is delivered exactly once with the error of the Close that took
+// effect (a user's error or the transport fault), every Close call returns, the context ends, nothing hangs.
+//
+//	what: 0 the first Writev fails, 1 the first Flush fails
+func ZZ_C05_WriteFaultClose(q, what, closers int) {
+	tr := newZZTransport()
+	tr.yield = true
+	fault := &zzNetErr{timeout: false}
+	tr.writeErr = fault
+	if what == 0 {
+		tr.failWriteAt = 1
+	} else {
+		tr.failFlushAt = 1
+	}
+	probe := &zzLife{}
+	pl := NewPipeline()
+	pl.AddLast(probe)
+	ch := newChannelWith(vrtBackground(), pl, tr, AsyncExecutor(), 1, q, true).(*channel)
+	winner := -1
+	tr.onClose = func() { winner = vrt.Self() }
+	pl.ServeChannel(ch)
+	n, err := ch.Write1([]byte{0x41})
+	vrt.Assert(err == nil && n == 1, "c05-write-accepted-on-open-channel")
+	errs := []error{zzErrA, zzErrB}
+	var ids [2]int
+	returned := 0
+	for k := 0; k < closers; k++ {
+		k := k
+		vrt.Go("closer"+string(rune('0'+k)), func() {
+			ids[k] = vrt.Self()
+			ch.Close(errs[k])
+			returned++
+			vrt.Assert(!ch.IsActive(), "c05-inactive-after-any-close-returns")
+			if winner == ids[k] {
+				vrt.Assert(ch.Context().Err() != nil, "c05-context-cancelled-after-effective-close")
+			}
+		})
+	}
+	dead := vrt.Quiesce()
+	vrt.Assert(!dead && returned == closers, "c05-every-close-call-returns")
+	vrt.Assert(tr.closes == 1, "c05-transport-closed-exactly-once")
+	vrt.Assert(probe.inactives == 1, "c05-inactive-exactly-once")
+	vrt.Assert(!ch.IsActive() && ch.Context().Err() != nil, "c05-context-cancelled")
+	userWon := false
+	for k := 0; k < closers; k++ {
+		if winner == ids[k] {
+			userWon = true
+			vrt.Assert(probe.inactiveEx == errs[k], "c05-inactive-carries-winning-error")
+		}
+	}
+	if !userWon {
+		vrt.Assert(errors.Is(probe.inactiveEx, fault) || probe.inactiveEx == error(fault), "c05-inactive-carries-winning-error")
+		vrt.Reach("c05-write-fault-closed")
+	} else {
+		vrt.Reach("c05-user-close-beat-write-fault")
 	}
 }
